@@ -387,6 +387,93 @@ func c12History(c *Ctx, i int, r *gen.R) {
 	}
 }
 
+// ---- many keys on one owner: nothing in the statement bounds how many keys an owner may hold
+
+func c12ManyKeys(c *Ctx, i int, r *gen.R) {
+	sizes := []int{33, 40, 64, 65, 100, 257}
+	N := sizes[i%len(sizes)]
+	kind := (i / len(sizes)) % 5
+	t := tabular.New()
+	t.AddHeaders("h1", "h2")
+	t.AddRowItems("x", "y")
+	var owner tabular.PropertyOwner
+	name := ""
+	switch kind {
+	case 0:
+		owner, name = t, "table"
+	case 1:
+		owner, name = t.Column(0), "column 0"
+	case 2:
+		owner, name = t.Column(2), "column 2"
+	case 3:
+		owner, name = t.AllRows()[0], "row 1"
+	default:
+		p, _ := t.CellAt(tabular.CellLocation{Row: 1, Column: 2})
+		owner, name = p, "cell (1,2)"
+	}
+	desc := map[string]interface{}{"owner": name, "keys": N}
+	c.Case = desc
+	c.Rec.Eval(gen.Hash64("manykeys", fmt.Sprint(N, kind)), true)
+	key := func(k int) interface{} {
+		if k%3 == 0 {
+			return fmt.Sprintf("key-%d", k)
+		}
+		return 1000 + k
+	}
+	model := map[interface{}]interface{}{}
+	var log []string
+	verify := func(k int, when string) bool {
+		c.Rec.Count("property_reads_compared", 1)
+		got, want := owner.GetProperty(key(k)), model[key(k)]
+		if got != want {
+			desc["last_steps"] = log
+			c.Rec.Violate("many-keys:get-differs:"+strings.Fields(name)[0], fmt.Sprintf("%s holding %d keys, %s: GetProperty(%v) = %v, the value most recently set is %v", name, N, when, key(k), got, want), desc)
+			return false
+		}
+		return true
+	}
+	for k := 0; k < N; k++ {
+		owner.SetProperty(key(k), k)
+		model[key(k)] = k
+	}
+	for k := 0; k < N; k++ {
+		if !verify(k, "after the initial sets") {
+			return
+		}
+	}
+	for step := 0; step < 3*N; step++ {
+		k := r.Intn(N)
+		what := ""
+		switch r.Intn(3) {
+		case 0:
+			owner.SetProperty(key(k), nil)
+			delete(model, key(k))
+			what = fmt.Sprintf("SetProperty(%v, nil)", key(k))
+		default:
+			v := step*1000 + k
+			owner.SetProperty(key(k), v)
+			model[key(k)] = v
+			what = fmt.Sprintf("SetProperty(%v, %d)", key(k), v)
+		}
+		if log = append(log, what); len(log) > 12 {
+			log = log[1:]
+		}
+		if !verify(k, "after "+what) {
+			return
+		}
+		for q := 0; q < 4; q++ {
+			if !verify(r.Intn(N), "after "+what) {
+				return
+			}
+		}
+	}
+	for k := 0; k < N; k++ {
+		if !verify(k, "at the end of the history") {
+			return
+		}
+	}
+}
+
 // ---- growth monitors
 
 func c12Growth(c *Ctx, i int, r *gen.R) {
@@ -484,6 +571,7 @@ func init() {
 		},
 		Phases: []Phase{
 			{Name: "random property histories", N: Fixed(3000, 300000), Run: c12History},
+			{Name: "33-257 live keys on one owner x 5 owner kinds, random set / set-nil / get histories", N: Fixed(30, 3000), Run: c12ManyKeys},
 			{Name: "repeated sets do not change the %#v dump", Exhaustive: true, N: Fixed(15, 15), Run: c12Growth},
 			{Name: "repeated sets do not grow the heap", N: Fixed(5, 5), Run: c12Heap, Solo: true},
 		},
